@@ -1,5 +1,5 @@
 (* Props/C20.v -- operator descriptions, printing, tokens and indexing round-trip.  Property theorems only. *)
-From PC Require Import Gen.Kernels Gen.Tables Model.Base Model.Pauli Model.Parse Model.Index Proofs.PauliFacts Proofs.ParseFacts Proofs.IndexFacts.
+From PC Require Import Gen.Kernels Gen.Tables Model.Base Model.Pauli Model.Parse Model.Index Proofs.PauliFacts Proofs.ParseFacts Proofs.IndexFacts Proofs.TorchTwins.
 
 (* printing then parsing returns the operator including its phase, for every N and all four phases *)
 Theorem C20_parse_repr : forall a, 0 <= snd a < 4 -> parse_tokens (repr_tokens a) = Some a.
